@@ -48,7 +48,10 @@ def coerce(cls: Type[T], data: Any) -> T:
             raise bad_type(data, cls)
     elif cls is str:
         if isinstance(data, (int, float)) and not isinstance(data, bool):
-            return str(data)  # type: ignore
+            try:
+                return str(data)  # type: ignore
+            except ValueError:  # integer string conversion length limit
+                raise bad_type(data, cls)
         else:
             raise bad_type(data, cls)
     else:
